@@ -191,6 +191,12 @@ func checkEngineB(s *Sim, hist []*dcsHist) {
 				}
 				m.violate("C03", "acquire_true_without_ownership", culprit,
 					fmt.Sprintf("%s was told it holds the lock over events [%d,%d] (t=%v..%v) but no live session of it owned the znode then; owners in window: %s", h.Inc, h.InvSeq, h.RetSeq, h.InvT, h.RetT, ownerNow))
+				// the same fact in C15's words: a lock is an ephemeral key, and the layer reported it as
+				// existing for this process when no living session of the process had it
+				if m.primary["C15"] && culprit == "told-holder-without-owning-lock-znode" {
+					m.violate("C15", "ephemeral_lock", "lock-reported-held-without-a-live-ephemeral-key-of-the-caller",
+						fmt.Sprintf("%s was told it holds the lock over events [%d,%d] but no live session of it owned the ephemeral key then; owners in window: %s", h.Inc, h.InvSeq, h.RetSeq, ownerNow))
+				}
 			}
 		case "create", "create_eph":
 			sts := statesIn(tl[full], h.InvSeq, h.RetSeq)
